@@ -49,7 +49,7 @@ Proof. exact peg_tree_wf. Qed.
 (* ---- (iii) token classes of the generated grammar vs the ABNF (all strings over the alphabet up to the bound) ----
    Grammars (Tokens.v):  g_number = variant {d_radix_float}      g_id    = variant {d_id_runs, d_dollar}
                          g_text   = variant {d_ctrl_chars, d_escapes}   g_bytes = variant {d_bytes_raw, d_bsqual_case}
-                         g_blank  = variant {d_ctrl_chars}       g_ctl   = variant {d_cborseq}
+                         g_blank  = variant {d_ctrl_chars}       g_ctl   = abnf_spec (no deviation since 8d55c20)
    i.e. the specification grammar with exactly the named deviations switched on; the *_refuted theorems show that the
    deviations are real (the RFC rule itself differs from the PEG rule). *)
 Theorem C03_uint_lang_eq_upto3 : forall w, Forall (fun c => In c sig_uint) w -> (length w <= 3)%nat ->
@@ -104,16 +104,13 @@ Theorem C03_control_op_lang_eq : forall w, In w ctl_probe ->
   (peg_matches cddl_pest r_control_op w = Some true <-> Der g_ctl (ARef n_ctlop) w []).
 Proof. exact control_op_lang_eq. Qed.
 
-(* ... but one registered name can never be matched as a whole: the ordered choice takes its prefix "cbor" *)
+(* every registered name is matched as a whole control operator (the ".cborseq" defect was repaired in 8d55c20) *)
 Theorem C03_control_names_reachable :
   forallb (fun n => match peg_matches cddl_pest r_control_op (46 :: s2n n) with
-                    | Some b => Bool.eqb b (negb (String.eqb n "cborseq"))
+                    | Some b => b
                     | None => false
                     end) registered_controls = true.
 Proof. exact control_names_reachable. Qed.
-
-Theorem C03_ctlop_lang_refuted : exists w, peg_matches cddl_pest r_control_op w = Some false /\ Der abnf_spec (ARef n_ctlop) w [].
-Proof. exact ctlop_lang_refuted. Qed.
 
 (* ---- (v) whole documents ---- *)
 Theorem C03_language_refuted :
